@@ -2,6 +2,7 @@ import Dcg.Proofs.Imports
 import Dcg.Proofs.Cover
 import Dcg.Proofs.Types
 import Dcg.Proofs.ClassTie
+import Dcg.Model.FieldText
 /-
 C02 — emitted modules execute: every name is bound before it is needed.
 Only property theorems live here; helper lemmas are in Dcg/Proofs/Imports.lean (and
@@ -311,6 +312,17 @@ theorem bases_bound_by_sort (rc : Nat) (ms : List Dcg.Model.Sort.Model) (out : O
     (hname : ∀ m, (mk m).name = nm m.path) (hbases : ∀ m, (mk m).bases = m.bases.map nm) :
     ∀ pre c post, out.sorted.map mk = pre ++ c :: post → ∀ b ∈ c.bases, b ∈ pre.map (·.name) :=
   Dcg.Proofs.ClassTie.bases_precede_of_sort rc ms out hd hwf h nm mk hname hbases
+
+/-- FULL STRENGTH over the model's space (every combination of the five facts): the names the class
+template writes for a pydantic member besides its type hint — `Field` for `= Field(...)`, `Annotated`
+and `Field` for `Annotated[<hint>, Field(...)]` — are yielded by the member's own `.imports`: both
+are decided from the same text `str(self)`. (The seeded regression C02-a breaks exactly this
+coupling in the dataclass field class; campaign `field/model imports vs rendered text` tests it on
+the real classes of all five kinds.) -/
+theorem field_imports_cover (v : Dcg.Model.FieldText.V) :
+    ∀ n ∈ Dcg.Model.FieldText.memberUses v, n ∈ Dcg.Model.FieldText.imports v := by
+  obtain ⟨a, e, f, u, k⟩ := v
+  cases a <;> cases e <;> cases f <;> cases u <;> cases k <;> decide
 
 /-!
 What remains outside the theorems (tested end-to-end on every run): that the real import block
